@@ -658,7 +658,7 @@ def run(chk):
         chk.oracle('corpus:' + name, [case], ORACLES[name])
 
     # ---------------------------------------------------------------- annotations
-    N = 260 if tier == 'quick' else 700
+    N = 260 if tier == 'quick' else 600
     anns = []
     for idx in range(N):
         if idx < 26 * 3:
@@ -707,7 +707,7 @@ def run(chk):
     chk.notes.append('reach: lines of the modelled functions not executed by the correspondence inputs: '
                      + (json.dumps(unc) if unc else 'none'))
     # ---------------------------------------------------------------- chains of editors on one object lineage
-    nch = 500 if tier == 'quick' else 5000
+    nch = 500 if tier == 'quick' else 3000
     patterns = [None, None, None, ['sort', 'rev', 'sort'], ['sort', 'shift', 'sort'], ['sort', 'shuf', 'sort'],
                 ['sort', 'slice', 'sort'], ['discard', 'rev', 'sort'], ['shuf', 'sort', 'shuf'], ['slice', 'rev', 'slice'],
                 ['rev', 'split', 'rev'], ['condense', 'sort', 'rev'], ['shift', 'copy', 'shift']]
